@@ -114,6 +114,50 @@ type Module struct {
 	Augments   []*Augment   `json:"augments,omitempty"`
 	Deviations []*Deviation `json:"deviations,omitempty"`
 	Identities []*Identity  `json:"identities,omitempty"`
+	// ExtDefs: extension statements the module defines (name; each takes one argument)
+	ExtDefs []string `json:"extension_definitions,omitempty"`
+}
+
+// OCExtModule / OCExtPrefix: the module whose posix-pattern extension goyang knows, and the prefix the generated
+// files import it under.
+const (
+	OCExtModule = "openconfig-extensions"
+	OCExtPrefix = "oc-ext"
+)
+
+// UsesPosix: some type statement of the file carries a posix-pattern.
+func (m *Module) UsesPosix() bool {
+	found := false
+	var typ func(t *TypeRef)
+	typ = func(t *TypeRef) {
+		if t == nil {
+			return
+		}
+		if len(t.Posix) > 0 {
+			found = true
+		}
+		for _, u := range t.Union {
+			typ(u)
+		}
+	}
+	var walk func(b *Body)
+	walk = func(b *Body) {
+		for _, td := range b.Typedefs {
+			typ(td.Type)
+		}
+		for _, g := range b.Groupings {
+			walk(&g.Body)
+		}
+		for _, n := range b.Nodes {
+			typ(n.Type)
+			walk(&n.Body)
+		}
+	}
+	walk(&m.Body)
+	for _, a := range m.Augments {
+		walk(&a.Body)
+	}
+	return found
 }
 
 // Body is what a scope can hold.
@@ -137,11 +181,13 @@ type EnumM struct {
 
 // TypeRef is a type statement.
 type TypeRef struct {
-	Prefix         string     `json:"prefix,omitempty"` // as written; "" = none
-	Name           string     `json:"name"`
-	Range          string     `json:"range,omitempty"`
-	Length         string     `json:"length,omitempty"`
-	Patterns       []string   `json:"patterns,omitempty"`
+	Prefix   string   `json:"prefix,omitempty"` // as written; "" = none
+	Name     string   `json:"name"`
+	Range    string   `json:"range,omitempty"`
+	Length   string   `json:"length,omitempty"`
+	Patterns []string `json:"patterns,omitempty"`
+	// Posix: arguments of oc-ext:posix-pattern statements (the openconfig-extensions way of writing patterns)
+	Posix          []string   `json:"posix_patterns,omitempty"`
 	Enums          []EnumM    `json:"enums,omitempty"`
 	Bits           []EnumM    `json:"bits,omitempty"`
 	FractionDigits int        `json:"fraction_digits,omitempty"`
@@ -409,6 +455,9 @@ func (m *Module) Text() string {
 	if m.usesExt() {
 		p.line("extension note { argument text; }")
 	}
+	for _, e := range m.ExtDefs {
+		p.line("extension %s { argument a; }", e)
+	}
 	for _, id := range m.Identities {
 		if len(id.Bases) == 0 {
 			p.line("identity %s;", id.Name)
@@ -494,7 +543,7 @@ func (p *pr) body(b *Body) {
 }
 
 func (p *pr) typ(t *TypeRef) {
-	simple := t.Range == "" && t.Length == "" && len(t.Patterns) == 0 && len(t.Enums) == 0 && len(t.Bits) == 0 && t.FractionDigits == 0 && t.Path == "" && len(t.Union) == 0 && t.Base == ""
+	simple := t.Range == "" && t.Length == "" && len(t.Patterns) == 0 && len(t.Posix) == 0 && len(t.Enums) == 0 && len(t.Bits) == 0 && t.FractionDigits == 0 && t.Path == "" && len(t.Union) == 0 && t.Base == ""
 	if simple {
 		p.line("type %s;", t.Written())
 		return
@@ -511,6 +560,9 @@ func (p *pr) typ(t *TypeRef) {
 	}
 	for _, pat := range t.Patterns {
 		p.line("pattern %s;", Q(pat))
+	}
+	for _, pat := range t.Posix {
+		p.line("%s:posix-pattern %s;", OCExtPrefix, Q(pat))
 	}
 	for _, e := range t.Enums {
 		if e.Value != nil {
